@@ -1,8 +1,57 @@
 import Driver.Proto
+import Verif.Model.Xml
+import Verif.Spec.Xml
 /-! driver handlers for property C06 (ops `model.*`, `spec.*`, `trig.*`) -/
 namespace Verif.Driver.C06
-open Verif Verif.Driver
+open Verif Verif.Driver Verif.Model.Xml
+open Verif.Xml (XTok)
 
-def handlers : List (String × Handler) := []
+/-- one token = group `[kind, Data, Text, AttrVal]`, kind = decimal `xml.TokenType` of the dependency -/
+def decodeTok (g : List Bytes) : Except String XTok :=
+  match g with
+  | [kind, data, text, av] =>
+    let d := bytesToChars data
+    let t := bytesToChars text
+    let v := bytesToChars av
+    match parseIntChars (bytesToChars kind) with
+    | some 1 => .ok (.comment d)
+    | some 2 => .ok (.doctype d)
+    | some 3 => .ok (.cdata d t)
+    | some 4 => .ok (.startTag t)
+    | some 5 => .ok (.startTagPI t)
+    | some 6 => .ok .startTagClose
+    | some 7 => .ok .startTagCloseVoid
+    | some 8 => .ok .startTagClosePI
+    | some 9 => .ok (.endTag d t)
+    | some 10 => .ok (.attr t v)
+    | some 11 => .ok (.text d)
+    | _ => .error "bad token kind"
+  | _ => .error "bad token group"
+
+def argToks (args : List String) (i : Nat) : Except String (List XTok) := do
+  let gs ← argGroups args i
+  gs.mapM decodeTok
+
+/-- `model.c06.minify keepWhitespace tokens` → output bytes of the model -/
+def minify : Handler := fun args => do
+  let keep ← argBool args 0
+  let ts ← argToks args 1
+  .ok (charsToBytes (xmlMinify { keepWhitespace := keep } ts))
+
+/-- `trig.c06 keepWhitespace tokens` → names of the known-finding triggers that hold for the input -/
+def trig : Handler := fun args => do
+  let keep ← argBool args 0
+  let ts ← argToks args 1
+  .ok (listReply ((Spec.Xml.triggers keep ts).map strBytes))
+
+/-- `spec.c06.holds keepWhitespace inputTokens outputTokens` → failing clauses of the property (empty = holds) -/
+def holds : Handler := fun args => do
+  let keep ← argBool args 0
+  let i ← argToks args 1
+  let o ← argToks args 2
+  .ok (listReply ((Spec.Xml.holds keep i o).map strBytes))
+
+def handlers : List (String × Handler) :=
+  [("model.c06.minify", minify), ("trig.c06", trig), ("spec.c06.holds", holds)]
 
 end Verif.Driver.C06
